@@ -162,7 +162,7 @@ def run(ctx, oracle_fn=oracle, pid=PID, rule=RULE):
     if corp:
         evaluate(ctx, corp, res, oracle_fn, 'corpus')
     res['scopes']['corpus'] = len(corp)
-    n = 60000 if ctx.deep else 8000
+    n = (400000 if ctx.tier == 'thorough' else 60000) if ctx.deep else 8000
     runs = gen_runs(ctx, n)
     evaluate(ctx, runs, res, oracle_fn, 'generated')
     res['scopes']['generated_traces'] = len(runs)
